@@ -1,8 +1,11 @@
 (** C02 — recognition completeness (on the parsed view).  Theorems only.
-    PARTIAL: the byte-level statement "reply_of form probe parses to a genuine view" for each
-    catalogue form is validated by the correspondence (independent builders), not yet proved. *)
+    The byte-level theorems at the end prove, for ALL field values, that the raw bytes of the main IPv4 reply forms
+    built around the bytes the real builder emits (ICMP time-exceeded / unreachable quoting 28 bytes of the probe,
+    echo reply, direct TCP SYN-ACK / RST) are recognised by the whole receive path (frame parse, header decode,
+    ICMP classification, matcher).  PARTIAL: the IPv6 forms, IP options / extension headers and longer quotes are
+    covered by the correspondence (independent builders) rather than by a byte-level theorem. *)
 From Coq Require Import List ZArith Bool.
-From TR Require Import Lib.Bytes Wire.Decode Drv.Drivers Spec.C01 Proofs.DrvProofs.
+From TR Require Import Lib.Bytes Wire.Decode Wire.Build Drv.Drivers Spec.C01 Proofs.DrvProofs Proofs.ByteComplete Eng.Engine Eng.Timed Proofs.EngComplete.
 Import ListNotations.
 Open Scope Z_scope.
 
@@ -24,3 +27,63 @@ Proof.
   - intros [a [r [d H]]]. apply (recv_view_sound c st v now t a r d Hc H).
 Qed.
 Print Assumptions C02_exact.
+
+(** ICMP variant: an IPv4 time-exceeded from ANY router, with any TOS / id / DF flag / TTL / checksums / unused bytes, quoting the first 28 bytes of the probe the real builder emits for TTL t, is the hop for t *)
+Theorem C02_bytes_icmp4_time_exceeded c st t now s tos i1 i2 f1 ttl0 c1 c2 k1 k2 u1 u2 u3 u4 r1 r2 r3 r4 l1 l2 l3 l4 t1 t2 t3 t4 :
+  c_variant c = VIcmp -> c_local c = [l1; l2; l3; l4] -> c_target c = [t1; t2; t3; t4] ->
+  0 <= c_first c -> c_last c <= 255 -> in_ttl_range c t = true -> 0 <= c_echo_id c < 65536 ->
+  (f1 = 0 \/ f1 = 64) ->
+  find_ttl st t = Some s ->
+  let probe := icmp4_probe (c_local c) (c_target c) (c_echo_id c) t in
+  recv c st (hdr4 tos 0 56 i1 i2 f1 0 ttl0 1 c1 c2 r1 r2 r3 r4 l1 l2 l3 l4 ([11; 0; k1; k2; u1; u2; u3; u4] ++ takez 28 probe)) now
+  = Hop t [r1; r2; r3; r4] (now - s_time s) false.
+Proof. exact (@icmp4_te28_recognised c st t now s tos i1 i2 f1 ttl0 c1 c2 k1 k2 u1 u2 u3 u4 r1 r2 r3 r4 l1 l2 l3 l4 t1 t2 t3 t4). Qed.
+Print Assumptions C02_bytes_icmp4_time_exceeded.
+
+(** ICMP variant: the echo reply from the target (any trailing data) is the destination hop *)
+Theorem C02_bytes_icmp4_echo_reply c st t now s tos i1 i2 f1 ttl0 c1 c2 k1 k2 l1 l2 l3 l4 t1 t2 t3 t4 data :
+  c_variant c = VIcmp -> c_local c = [l1; l2; l3; l4] -> c_target c = [t1; t2; t3; t4] ->
+  0 <= c_first c -> c_last c <= 255 -> in_ttl_range c t = true -> 0 <= c_echo_id c < 65536 ->
+  (f1 = 0 \/ f1 = 64) -> len data <= 200 ->
+  find_ttl st t = Some s ->
+  let tot := 28 + len data in
+  recv c st (hdr4 tos ((tot / 256) mod 256) (tot mod 256) i1 i2 f1 0 ttl0 1 c1 c2 t1 t2 t3 t4 l1 l2 l3 l4
+                  ([0; 0; k1; k2; (c_echo_id c / 256) mod 256; c_echo_id c mod 256; (t / 256) mod 256; t mod 256] ++ data)) now
+  = Hop t [t1; t2; t3; t4] (now - s_time s) true.
+Proof. exact (@icmp4_echo_reply_recognised c st t now s tos i1 i2 f1 ttl0 c1 c2 k1 k2 l1 l2 l3 l4 t1 t2 t3 t4 data). Qed.
+Print Assumptions C02_bytes_icmp4_echo_reply.
+
+(** UDP variant: time-exceeded or ANY destination-unreachable code quoting the probe; destination iff the responder is the target *)
+Theorem C02_bytes_udp4_icmp_error c st t now s ty co tos i1 i2 f1 ttl0 c1 c2 k1 k2 u1 u2 u3 u4 r1 r2 r3 r4 l1 l2 l3 l4 t1 t2 t3 t4 :
+  c_variant c = VUdp -> c_local c = [l1; l2; l3; l4] -> c_target c = [t1; t2; t3; t4] ->
+  0 <= c_sport c < 65536 -> 0 <= c_dport c < 65536 -> 0 <= t <= 255 ->
+  (f1 = 0 \/ f1 = 64) -> ((ty = 11 /\ co = 0) \/ ty = 3) ->
+  find (fun x => s_id x =? udp4_id t) st = Some s ->
+  let probe := udp4_probe (c_local c) (c_target c) (c_sport c) (c_dport c) t in
+  recv c st (hdr4 tos 0 56 i1 i2 f1 0 ttl0 1 c1 c2 r1 r2 r3 r4 l1 l2 l3 l4 ([ty; co; k1; k2; u1; u2; u3; u4] ++ takez 28 probe)) now
+  = Hop (s_ttl s) [r1; r2; r3; r4] (now - s_time s) (bytes_eqb [r1; r2; r3; r4] [t1; t2; t3; t4]).
+Proof. exact (@udp4_icmp_error28_recognised c st t now s ty co tos i1 i2 f1 ttl0 c1 c2 k1 k2 u1 u2 u3 u4 r1 r2 r3 r4 l1 l2 l3 l4 t1 t2 t3 t4). Qed.
+Print Assumptions C02_bytes_udp4_icmp_error.
+
+(** TCP variant: SYN-ACK, RST or RST-ACK from the target acknowledging the last probe *)
+Theorem C02_bytes_tcp_direct_reply c st now tos i1 i2 f1 ttl0 c1 c2 q1 q2 q3 q4 fl w1 w2 k1 k2 g1 g2 l1 l2 l3 l4 t1 t2 t3 t4 lastp :
+  c_variant c = VTcp -> c_local c = [l1; l2; l3; l4] -> c_target c = [t1; t2; t3; t4] ->
+  0 <= c_sport c < 65536 -> 0 <= c_dport c < 65536 -> (f1 = 0 \/ f1 = 64) ->
+  (fl = 18 \/ fl = 4 \/ fl = 20) ->
+  rev st = lastp :: tl (rev st) -> 0 <= s_seq lastp < 4294967296 ->
+  let ack := (s_seq lastp + 1) mod 4294967296 in
+  recv c st (hdr4 tos 0 40 i1 i2 f1 0 ttl0 6 c1 c2 t1 t2 t3 t4 l1 l2 l3 l4
+                  ([(c_dport c / 256) mod 256; c_dport c mod 256; (c_sport c / 256) mod 256; c_sport c mod 256; q1; q2; q3; q4;
+                    (ack / 16777216) mod 256; (ack / 65536) mod 256; (ack / 256) mod 256; ack mod 256; 80; fl; w1; w2; k1; k2; g1; g2])) now
+  = Hop (s_ttl lastp) [t1; t2; t3; t4] (now - s_time lastp) true.
+Proof. exact (@tcp_direct_reply_recognised c st now tos i1 i2 f1 ttl0 c1 c2 q1 q2 q3 q4 fl w1 w2 k1 k2 g1 g2 l1 l2 l3 l4 t1 t2 t3 t4 lastp). Qed.
+Print Assumptions C02_bytes_tcp_direct_reply.
+
+(** engine lift, ANY script (loss, duplicates, reordering, noise, rogue replies): every reply that is readable by the deadline, for a TTL whose probe was sent, is accepted *)
+Theorem C02_engine_accepts_every_timely_reply p script r :
+  parallel_run p script = TDone r ->
+  forall e s, In e script -> e_kind e = 0 -> In (e_ttl e, s) (tr_sends r) -> s + e_delay e <= pdeadline p ->
+  exists q, In q (tr_accepted r) /\ matches e q.
+Proof. exact (@parallel_accepts_every_timely_reply p script r). Qed.
+Print Assumptions C02_engine_accepts_every_timely_reply.
+
